@@ -276,7 +276,7 @@ class C09(Check):
     ]
 
     def budget(self, tier, escalated):
-        n = 400 if tier == 'quick' else 12000
+        n = 400 if tier == 'quick' else 5000
         return n * (3 if escalated and tier == 'quick' else 1)
 
     def nontrivial(self, sample):
@@ -513,7 +513,7 @@ class C09(Check):
                 d = dec(s)
                 hist = [dict(x, cl_is_framework=False, ctype_is_framework=False) for x in d['hist']]
                 cases.append((self._spec(d['app']), hist))
-        for _ in range(n):
+        for _ in range(min(n, 3000)):
             spec = fixed_app(g, rng)
             cases.append((spec, self.gen_history(g, rng, spec)))
         for spec, hist in cases:
